@@ -18,6 +18,7 @@ from ..signal import Signal, PortDir, Visibility
 from ..slice import Slice
 from ..concat import Concat
 from ..literal import Literal
+from ..scalar import Scalar
 from .. import primitives
 from ..primitives import Primitive, Vpulse
 
@@ -163,7 +164,7 @@ class ProtoImporter:
                 # Import a VLSIR primitive to an ideal element, and convert its parameters
                 target = import_vlsir_primitive(ref.external)
                 remapped_params = import_primitive_params(target, params)
-                params = target.Params(**remapped_params)
+                params = target.Params(**adapt_params(target.Params, remapped_params))
 
             elif ref.external.domain in (
                 "hdl21.primitives",
@@ -171,7 +172,7 @@ class ProtoImporter:
             ):
                 # Retrieve the Primitive from `hdl21.primitives`, and convert its parameters
                 target = import_hdl21_primitive(ref.external)
-                params = target.Params(**params)
+                params = target.Params(**adapt_params(target.Params, params))
 
             else:  # Externally-defined `ExternalModule`
                 # These must be declared in our `Package` being imported. Look up its header-info from `ext_modules`.
@@ -284,10 +285,35 @@ def import_parameter_value(
     if ptype == "string_value":
         return str(pparam.string_value)
     if ptype == "literal":
-        return str(pparam.literal)
+        return Literal(text=str(pparam.literal))
     if ptype == "prefixed":
         return import_prefixed(pparam.prefixed)
     raise ValueError(f"Invalid Parameter Type: `{ptype}`")
+
+
+def adapt_params(paramtype: type, params: Dict[str, Any]) -> Dict[str, Any]:
+    """Adapt the imported `params` dictionary to the fields of param-class `paramtype`:
+
+    * `None`-valued parameters are not exported, so each absent optional field was `None` - not its default.
+    * `Literal`s stay `Literal`s in `Scalar`-typed fields (where the text "5" would otherwise turn into the number 5),
+      and become plain strings everywhere else, e.g. in string- and enum-typed fields."""
+
+    adapted = dict()
+    for name, param in paramtype.__params__.items():
+        is_scalar = param.dtype in (Scalar, Optional[Scalar])
+        if name not in params:
+            if type(None) in getattr(param.dtype, "__args__", ()):
+                adapted[name] = None
+            continue
+        val = params[name]
+        if isinstance(val, Literal) and not is_scalar:
+            val = val.text
+        adapted[name] = val
+    # Anything else, i.e. invalid parameter names, is passed along to fail validation.
+    for name, val in params.items():
+        if name not in adapted:
+            adapted[name] = val
+    return adapted
 
 
 def import_connection_target(
